@@ -43,7 +43,7 @@ def keep_env(c):
 
 
 def run(ctx):
-    n = 1500 if ctx.tier == "quick" else 30000
+    n = ctx.n(1500, 30000)
     return histprop.run_history_property(ctx, "C13", gen_case, n, RULE, nontrivial, env_of=env_of, dist_fn=dist_fn)
 
 
